@@ -102,7 +102,7 @@ fn c11_map(kind: u8) {
     } else {
         WbFunction::Disconnected(cid(1), None)
     };
-    crate::forward_api_call(&mut txs, &mut dead, &function, true);
+    crate::forward_api_call_now(&mut txs, &mut dead, &function, true);
     core::mem::forget(function);
     let first = rx.try_recv();
     match &first {
@@ -141,19 +141,19 @@ fn c11_apply(kind: u8, a_cas: bool, ver: u64) {
     let mut f = wb_from(n2(None, "a", n0(Some(ea.entry())), "b", n0(Some(eb.entry()))), 2);
     let nb: bool = kani::any();
     let cmd = if kind == SET {
-        let r = l.set(s("a"), Value::Bool(nb), cid(1), false);
+        let r = aw!(l.set(s("a"), Value::Bool(nb), cid(1), false));
         core::mem::forget(r);
         ClientWriteCommand::Set(s("a"), Value::Bool(nb), false)
     } else if kind == CSET {
-        let r = l.cset(s("a"), Value::Bool(nb), ver, cid(1), false);
+        let r = aw!(l.cset(s("a"), Value::Bool(nb), ver, cid(1), false));
         core::mem::forget(r);
         ClientWriteCommand::CSet(s("a"), Value::Bool(nb), ver, false)
     } else if kind == DELETE {
-        let r = l.delete(s("a"), cid(1));
+        let r = aw!(l.delete(s("a"), cid(1)));
         core::mem::forget(r);
         ClientWriteCommand::Delete(s("a"))
     } else {
-        let r = l.pdelete(s("?"), cid(1));
+        let r = aw!(l.pdelete(s("?"), cid(1)));
         core::mem::forget(r);
         ClientWriteCommand::PDelete(s("?"))
     };
@@ -210,15 +210,15 @@ c11h!(c11_session_end, {
     let mk = || {
         let c1 = n2(None, "graveGoods", n0(plain(gg("a/x"))), "lastWill", n0(plain(lw("a/y", will))));
         wb_from(
-            n2(None, "$SYS", n1(None, "clients", n1(plain(Value::Number(1)), ID1, c1)), "a", n2(None, "x", n0(plain(Value::Bool(xb))), "y", n0(plain(Value::Bool(yb))))),
+            n2(None, "$SYS", n1(None, "clients", n1(plain(crate::worterbuch::h::vnum(1)), ID1, c1)), "a", n2(None, "x", n0(plain(Value::Bool(xb))), "y", n0(plain(Value::Bool(yb))))),
             5,
         )
     };
     let mut l = mk();
     let mut f = mk();
     wb_set_clients2(&mut l);
-    let ggr = l.psubscribe(INTERNAL_CLIENT_ID, 0, s("$SYS/clients/?/graveGoods"), true, true);
-    let lwr = l.psubscribe(INTERNAL_CLIENT_ID, 0, s("$SYS/clients/?/lastWill"), true, true);
+    let ggr = aw!(l.psubscribe(INTERNAL_CLIENT_ID, 0, s("$SYS/clients/?/graveGoods"), true, true));
+    let lwr = aw!(l.psubscribe(INTERNAL_CLIENT_ID, 0, s("$SYS/clients/?/lastWill"), true, true));
     let (mut gg_rx, mut lw_rx) = match (ggr, lwr) {
         (Ok(a), Ok(b)) => (a.0, b.0),
         _ => {
@@ -259,12 +259,12 @@ c11h!(c11_session_end, {
 });
 
 // ---------------------------------------------------------------- a follower joins
-// @h props=C11 tier=manual cap=2400 mem=20 autounwind=80 desc="follower joins a leader that has a client with registered grave goods: state transfer gives it the user keys AND the registrations" bounds="1 client; key a"
+// @h props=C11 tier=quick cap=2400 mem=20 autounwind=80 desc="follower joins a leader that has a client with registered grave goods: state transfer gives it the user keys AND the registrations" bounds="1 client; key a"
 c11h!(c11_join, {
     const ID1: &str = "00000000-0000-0000-0000-000000000001";
     let ea = E::any(true);
     let c1 = n1(None, "graveGoods", n0(plain(gg("a"))));
-    let mut l = wb_from(n2(None, "$SYS", n1(None, "clients", n1(plain(Value::Number(1)), ID1, c1)), "a", n0(Some(ea.entry()))), 3);
+    let mut l = wb_from(n2(None, "$SYS", n1(None, "clients", n1(plain(crate::worterbuch::h::vnum(1)), ID1, c1)), "a", n0(Some(ea.entry()))), 3);
     let mut f = wb_from(n0(None), 0);
     let (state_tx, mut state_rx) = oneshot::channel::<(StateSync, mpsc::Receiver<ClientWriteCommand>)>();
     let mut txs: Txs = Vec::with_capacity(1);
